@@ -42,6 +42,7 @@ var (
 type c16Querier struct {
 	mu  sync.Mutex
 	idx map[common.Hash]uint32
+	lag map[common.Hash]int // the L1 info tree syncer is behind: this many look-ups of the root answer "not found" first
 }
 
 func (q *c16Querier) GetLastL1InfoTreeRoot(context.Context) (treetypes.Root, error) {
@@ -57,6 +58,10 @@ func (q *c16Querier) GetInfoByGlobalExitRoot(g common.Hash) (*l1infotreesync.L1I
 	if !ok {
 		return nil, aggkitdb.ErrNotFound
 	}
+	if q.lag[g] > 0 {
+		q.lag[g]--
+		return nil, aggkitdb.ErrNotFound
+	}
 	return &l1infotreesync.L1InfoTreeLeaf{L1InfoTreeIndex: i, GlobalExitRoot: g}, nil
 }
 
@@ -64,6 +69,7 @@ type c16Ev struct {
 	Kind int // 0 none, 1 insert, 2 remove
 	GER  common.Hash
 	Idx  uint32
+	Lag  int // insert: look-ups of this root that the (lagging) L1 info tree syncer answers with "not found" first
 }
 
 type c16Case struct {
@@ -83,7 +89,7 @@ func c16Gen(rt *rapid.T) c16Case {
 			g := common.BigToHash(common.Big1)
 			g[0], g[1], g[2] = byte(i), byte(i>>8), 0xee
 			idx += uint32(rapid.IntRange(1, 3).Draw(rt, "idxGap"))
-			c.Blocks = append(c.Blocks, c16Ev{Kind: 1, GER: g, Idx: idx})
+			c.Blocks = append(c.Blocks, c16Ev{Kind: 1, GER: g, Idx: idx, Lag: rapid.SampledFrom([]int{0, 0, 0, 0, 1, 3}).Draw(rt, "l1InfoLag")})
 			live = append(live, g)
 		case 2:
 			if len(live) > 0 {
@@ -180,10 +186,11 @@ func c16Run(c c16Case) (verdict string, inconcl string) {
 		chain.Extend(c.logs(i))
 	}
 	n := uint64(len(c.Blocks))
-	q := &c16Querier{idx: map[common.Hash]uint32{}}
+	q := &c16Querier{idx: map[common.Hash]uint32{}, lag: map[common.Hash]int{}}
 	for _, e := range c.Blocks {
 		if e.Kind == 1 {
 			q.idx[e.GER] = e.Idx
+			q.lag[e.GER] = e.Lag
 		}
 	}
 	var (
@@ -218,7 +225,9 @@ func c16Run(c c16Case) (verdict string, inconcl string) {
 				fin = lat - 3
 			}
 			ch.SetPointersLocked(lat, lat, fin)
-		} else if call.Method == "FilterLogs" || (call.Method == "HeaderByNumber" && call.Tag == "") {
+		} else if call.Method == "FilterLogs" {
+			// only the downloader's range queries count as activity: the reorg detector re-reads the headers of the tracked
+			// (not yet finalized) blocks on every sweep, for ever
 			parked = 0
 		}
 		return nil
